@@ -279,7 +279,7 @@ def gen_pair(rng):
         t1, t2 = (a, b) if rng.random() < 0.7 else ({"q": a}, {"q": b})
         kw = {"ignore_order": True, "report_repetition": True}
         kind = "ignore-order"
-    elif k < 0.9:
+    elif k < 0.86:
         # sets, frozensets, tuples, None and type changes
         def small():
             return rng.choice([None, 1, "a", 2.5, True, b"ab", (1, 2), [1], {1, 2}, frozenset([1, "a"]), {"k": None}, {1: 2, None: 3}])
@@ -297,7 +297,7 @@ def gen_pair(rng):
         if rng.random() < 0.4:
             t2[rng.choice(["new", 9, "n2"])] = small()
         kind = "typed"
-    elif k < 0.92:
+    elif k < 0.93:
         # sets / frozensets of JSON scalars whose members come and go: set_item_added / set_item_removed only
         pool = [1, 2, 3, 7, "a", "b", "k", 2.5, None, True]
 
@@ -315,7 +315,7 @@ def gen_pair(rng):
             if tgt == "f":
                 t2["f"] = frozenset(cur)
         kind = "json-sets"
-    elif k < 0.96:
+    elif k < 0.97:
         # records matched by an id through iterable_compare_func -> iterable_item_moved,
         # _iterable_compare_func_was_used travels in the payload
         ids = rng.sample(range(1, 8), rng.randint(2, 5))
@@ -733,6 +733,17 @@ class EqList:
     __hash__ = None
 
 
+class Plain:
+    """an ordinary user class: needs safe_to_import to be loaded"""
+    def __init__(self, v):
+        self.v = v
+
+    def __eq__(self, other):
+        return type(other) is Plain and self.v == other.v
+
+    __hash__ = None
+
+
 class _Ambiguous:
     def __bool__(self):
         raise ValueError("the truth value of this comparison is ambiguous")
@@ -742,7 +753,7 @@ def install_exotic():
     import sys
     import types
     m = types.ModuleType(EXO_MOD)
-    for c in (EqRaises, EqList):
+    for c in (EqRaises, EqList, Plain):
         c.__module__ = EXO_MOD
         c.__qualname__ = c.__name__
         setattr(m, c.__name__, c)
@@ -765,6 +776,9 @@ def exotic_cases():
         ("object whose == raises, in a new list item", lambda: ([1], [1, [EqRaises("x"), 2]], {})),
         ("object whose == is not a bool, added", lambda: ({"a": 1}, {"a": 1, "w": EqList([1, 2])}, {})),
         ("object whose == is not a bool, type change", lambda: ({"q": 1}, {"q": EqList(1)}, {})),
+        ("user class instance added", lambda: ({"a": 1}, {"a": 1, "p": Plain([1, 2])}, {})),
+        ("user class as new_type of a type change", lambda: ([1, "x"], [Plain(1), "x"], {})),
+        ("user class as old_type of a type change", lambda: ({"k": Plain("v")}, {"k": None}, {})),
     ]
 
 
@@ -775,7 +789,7 @@ def exo_eq(a, b):
         return False
     if isinstance(a, np.ndarray):
         return a.dtype == b.dtype and a.shape == b.shape and bool(np.array_equal(a, b))
-    if isinstance(a, (EqRaises, EqList)):
+    if isinstance(a, (EqRaises, EqList, Plain)):
         return exo_eq(a.v, b.v)
     if isinstance(a, dict):
         return list(a.keys()) == list(b.keys()) and all(exo_eq(a[k], b[k]) for k in a)
@@ -847,10 +861,118 @@ def exotic_one(ctx, k, bid):
         return
     if not exo_eq(d2.diff, d.diff):
         ctx.fail(dict(case, stage="payload", loaded=repr(d2.diff), original=repr(d.diff)), "the reloaded payload differs (%s)" % name)
+    # the same dump through a file object and a path, safe_to_import passed each time: the three sources are equivalent
+    fn = os.path.join(ctx.scratch, "exotic_%d.bin" % k)
+    with open(fn, "wb") as f:
+        d.dump(f)
+
+    def from_file():
+        with open(fn, "rb") as f:
+            return Delta(delta_file=f, bidirectional=bid, safe_to_import=safe or None)
+    sources = {"bytes": lambda: Delta(b, bidirectional=bid, safe_to_import=safe or None), "file": from_file,
+               "path": lambda: Delta(delta_path=fn, bidirectional=bid, safe_to_import=safe or None)}
+    for sname in ("file", "path"):
+        ctx.count("exotic:source:" + sname)
+        try:
+            dx = sources[sname]()
+        except Exception as e:  # noqa
+            ctx.fail(dict(case, stage="load", source=sname, error=type(e).__name__, safe_to_import=sorted(safe)),
+                     "the dump of a delta holding %s loads from bytes but not from a %s with the same safe_to_import: %s" % (
+                         name, sname, type(e).__name__))
+            continue
+        if not exo_eq(dx.diff, d.diff):
+            ctx.fail(dict(case, stage="payload", source=sname), "the payload reloaded from a %s differs (%s)" % (sname, name))
+        for base in (t1, t2):
+            w_, g_ = exo_apply(base, Delta(DeepDiff(t1, t2, **kw), bidirectional=bid)), exo_apply(base, sources[sname]())
+            if w_[0] != g_[0] or (w_[0] == "ok" and not exo_eq(w_[1], g_[1])) or (w_[0] == "raised" and w_[1] != g_[1]):
+                ctx.fail(dict(case, stage="behaviour", source=sname, original=repr(w_), reloaded=repr(g_)),
+                         "the delta reloaded from a %s behaves differently (%s)" % (sname, name))
     for base in (t1, t2):
         w_, g_ = exo_apply(base, Delta(DeepDiff(t1, t2, **kw), bidirectional=bid)), exo_apply(base, Delta(b, bidirectional=bid, safe_to_import=safe or None))
         if w_[0] != g_[0] or (w_[0] == "ok" and not exo_eq(w_[1], g_[1])) or (w_[0] == "raised" and w_[1] != g_[1]):
             ctx.fail(dict(case, stage="behaviour", original=repr(w_), reloaded=repr(g_)), "the reloaded delta behaves differently (%s)" % name)
+
+
+# ---------------------------------------------------------------------------
+# the dump is a function of the delta alone: unrelated earlier calls in the process must not matter
+# ---------------------------------------------------------------------------
+
+def interference_cases():
+    return [
+        ("type changes without values", [1, "2", 3.5], ["1", 2, 3], {}),
+        ("type changes with values", {"a": 1, "b": None, "c": "x"}, {"a": "one", "b": 2, "c": [1]}, {}),
+        ("set items", {"s": {1, 2, 3}, "f": frozenset({"a"})}, {"s": {2, 3, 4}, "f": frozenset({"a", "b"})}, {}),
+        ("tuples and nesting", {"t": (1, 2), "l": [1, [2, 3]]}, {"t": (1, 3), "l": [1, [2, 4], 5]}, {}),
+        ("opcodes", [1, 2, 3, 4], [9, 8, 1, 2, 3, 4], {}),
+    ]
+
+
+def _unrelated_calls():
+    """what some other part of the application may do with deepdiff's JSON helpers"""
+    from deepdiff import DeepDiff
+    from deepdiff.serialization import json_dumps
+    from collections.abc import Mapping
+    mapping = {type: lambda x: x.__module__ + "." + x.__qualname__, set: lambda x: {"__set__": sorted(x, key=repr)},
+               tuple: lambda x: {"__tuple__": list(x)}, bytes: lambda x: x.hex(), Mapping: lambda x: sorted(x.items())}
+    DeepDiff({"a": 1, "s": {1}}, {"a": "1", "s": {2}, "t": (1,)}).to_json(default_mapping=mapping)
+    DeepDiff([1], [None]).to_json(default_mapping={type: lambda x: "T:" + x.__name__})
+    json_dumps({"k": {1, 2}, "ty": int, "b": b"ab", "t": (1, 2)}, default_mapping=mapping)
+    json_dumps({"k": frozenset([1])}, default_mapping={frozenset: list, set: tuple})
+
+
+def interference_one(ctx, k, bid, interfere=True):
+    import logging
+    logging.disable(logging.CRITICAL)
+    from deepdiff import DeepDiff, Delta
+    from deepdiff.serialization import json_dumps, json_loads
+    name, t1, t2, kw = interference_cases()[k]
+    case = {"interference": k, "what": name, "bidirectional": bid}
+    ctx.seen(("interference", k, bid), nontrivial=True)
+    ctx.count("interference:cases")
+
+    def dump_all():
+        d = Delta(DeepDiff(t1, t2, **kw), bidirectional=bid)
+        return d.dumps(), Delta(DeepDiff(t1, t2, **kw), bidirectional=bid, serializer=json_dumps).dumps()
+
+    def behaviour(text):
+        return [apply_delta(b_, Delta(text, deserializer=json_loads, bidirectional=bid)) for b_ in (t1, t2, [t1])]
+    try:
+        pk0, js0 = dump_all()
+        beh0 = behaviour(js0)
+    except Exception as e:  # noqa: not this stream's subject (covered by the main stream)
+        ctx.count("interference:unbuildable:" + type(e).__name__)
+        return
+    if interfere:
+        _unrelated_calls()
+    try:
+        pk1, js1 = dump_all()
+    except Exception as e:  # noqa
+        ctx.fail(dict(case, stage="dumps-after", error=type(e).__name__),
+                 "after unrelated to_json / json_dumps calls with a default_mapping, dumping the same delta raises %s" % type(e).__name__)
+        return
+    if pk1 != pk0:
+        ctx.fail(dict(case, stage="pickle-after"), "the pickle dump of the same delta changed after unrelated JSON calls")
+    if json.loads(js1) != json.loads(js0):
+        ctx.fail(dict(case, stage="json-after", before=js0[:300], after=js1[:300]),
+                 "the JSON dump of the same delta changed after unrelated to_json / json_dumps calls with a default_mapping (%s)" % name)
+        return
+    try:
+        beh1 = behaviour(js1)
+    except Exception as e:  # noqa
+        ctx.fail(dict(case, stage="load-after", error=type(e).__name__), "the JSON dump no longer loads after unrelated JSON calls")
+        return
+    if beh1 != beh0:
+        ctx.fail(dict(case, stage="behaviour-after", before=repr(beh0)[:300], after=repr(beh1)[:300]),
+                 "the JSON-persisted delta behaves differently after unrelated JSON calls (%s)" % name)
+
+
+def interference_stream(ctx):
+    n = len(interference_cases())
+    for k in range(n):
+        for bid in (False, True):
+            interference_one(ctx, k, bid)
+    ctx.note("interference", "%d deltas x bidirectional dumped (pickle and JSON) before and after unrelated in-process "
+             "DeepDiff.to_json(default_mapping=...) / json_dumps(default_mapping=...) calls; the rest of the run happens after them" % n)
 
 
 def exotic_stream(ctx):
@@ -1063,6 +1185,7 @@ def fixed_witnesses(ctx):
 def run(ctx):
     n = 2600 if ctx.thorough else 520
     out = {"vm": [], "enc": [], "json": [], "acc": [], "dlt": [], "enc_max": 600 if ctx.thorough else 160}
+    interference_stream(ctx)       # first: everything below also runs after the unrelated calls
     for i in range(n):
         one_case(ctx, ctx.rng, i, out)
     exotic_stream(ctx)
@@ -1083,6 +1206,10 @@ def replay(ctx, data):
     import logging
     logging.disable(logging.CRITICAL)
     case = data.get("case", {})
+    if "interference" in case:
+        print("replay: interference case %d (%s), bidirectional=%s" % (case["interference"], case.get("what"), case.get("bidirectional")))
+        interference_one(ctx, case["interference"], case.get("bidirectional", False))
+        return
     if "exotic" in case:
         install_exotic()
         print("replay: exotic value case %d (%s), bidirectional=%s" % (case["exotic"], case.get("what"), case.get("bidirectional")))
